@@ -4,6 +4,7 @@ All variables are symbolic selectors (template attribution mode, model ordinal a
 ordinals) that the solver enumerates exhaustively; each combination runs natively on the real code.
 """
 import copy
+import decimal
 
 from symx.env import NoTracing, check, Fail, NATIVE, pick, R
 from symx import docenv
@@ -104,6 +105,14 @@ def make_copy(doc, acc_c, kind_c, max_ti, twin=False):
             check(''.join(t.raw_text for t in ctoks) == mtext, what, 'store of the copy holds more than the copy', R(''.join(t.raw_text for t in ctoks)))
             if ctoks:
                 check(c.first_token is st.get_first() and c.last_token is st.get_last(), what, 'copy is not the whole of its store')
+            mtoks = list(m.tokens)
+            check(len(mtoks) == len(ctoks), what, 'token count differs')
+            for t1, t2 in zip(mtoks, ctoks):   # token-exact, including comments no model owns
+                check(type(t1) is type(t2) and t1.raw_text == t2.raw_text, what, 'token differs', docenv.R_(t1), docenv.R_(t2))
+                if isinstance(t1, M.BlockComment):
+                    check(t1.claimed == t2.claimed and t1.indent == t2.indent and t1.value == t2.value, what, 'comment state differs (claimed/indent/value)', docenv.R_(t1))
+                elif hasattr(t1, 'value'):
+                    check(t1.value == t2.value, what, 'token value differs', docenv.R_(t1))
             for (p1, a), (p2, b) in zip(walk(m), walk(c)):   # same shape, comment flags preserved
                 check(type(a) is type(b) and p1 == p2, what, 'tree shape differs at', p1, p2)
                 if isinstance(a, M.BlockComment):
@@ -127,6 +136,18 @@ def make_copy(doc, acc_c, kind_c, max_ti, twin=False):
                 name, fn = eds[ti % len(eds)]
                 fn()
                 edit = name
+            elif kind == 3:
+                # an edit of one side that READS an operand living on the other side
+                ex = [x for _, x in walk(target) if isinstance(x, M.NumberExpr)]
+                ox = [x for _, x in walk(other) if isinstance(x, M.NumberExpr)]
+                if not ex:
+                    return
+                a, b = ex[ti % len(ex)], ox[ti % len(ox)]
+                if (ti // len(ex)) % 2:
+                    a += b
+                else:
+                    a *= b
+                edit = 'in-place arithmetic with an operand from the other side'
             else:
                 sub = [x for _, x in walk(target) if isinstance(x, M.RawTreeModel) and x is not target and hasattr(x, 'spacing_before')]
                 if not sub:
@@ -208,7 +229,7 @@ def make_equal(doc, acc_c, kind_c, max_ti, twin=False):
 
 # ------------------------------------------------------------------------------------------------------ C04
 READ_OPS = ['getattrs', 'views', 'eq_hash', 'deepcopy', 'print', 'claim_leading', 'claim_trailing', 'unclaim_claim_leading', 'unclaim_claim_trailing',
-            'auto_claim', 'interleaving', 'spacing_get']
+            'auto_claim', 'interleaving', 'spacing_get', 'arith']
 
 
 def read_op(op, m, strict):
@@ -271,6 +292,11 @@ def read_op(op, m, strict):
                     if strict:
                         w.unclaim_interleaving_comments()
                     w.claim_interleaving_comments()
+        elif op == 'arith':
+            for x in [y for _, y in walk(m) if isinstance(y, M.NumberExpr)][:3]:
+                x + x, x - 1, 2 * x, x * x, -x, +x, 1 - x, x + decimal.Decimal('1.5')
+                if x.value != 0:
+                    x / x, 3 / x
         elif op == 'spacing_get' and hasattr(m, 'spacing_before'):
             m.spacing_before, m.spacing_after, m.raw_spacing_before, m.raw_spacing_after
     except (ValueError, NotImplementedError):
@@ -318,11 +344,13 @@ def _reg(name_fn, tiers, timeout, family, bounds, twin=False, cost=None):
 
 
 Q, T = ('quick', 'thorough'), ('thorough',)
-KINDS = ['one token text', 'one structural edit', 'one spacing edit']
+KINDS = ['one token text', 'one structural edit', 'one spacing edit', 'in-place arithmetic reading the other side']
 EKINDS = ['one token text', 'one child removed/added', 'comment ownership', 'other type']
 for _d in DOCS:
     for _acc in (1, 0):
-        for _kind in range(3):
+        for _kind in range(4):
+            if _kind == 3 and _d != 'txn':
+                continue
             _reg(make_copy(_d, _acc, _kind, 11), {'C11': Q}, 900, 'copy',
                  'document %r, auto_claim_comments=%d: every tree model at any depth x %s (12 places) on copy or original' % (_d, _acc, KINDS[_kind]), cost=100)
             _reg(make_copy(_d, _acc, _kind, 47), {'C11': T}, 1800, 'copy',
@@ -332,7 +360,7 @@ for _d in DOCS:
                  'document %r, auto_claim_comments=%d: every tree model x perturbation: %s (12 places)' % (_d, _acc, EKINDS[_kind]), cost=100)
             _reg(make_equal(_d, _acc, _kind, 47), {'C20': T}, 1800, 'equal',
                  'document %r, auto_claim_comments=%d: every tree model x perturbation: %s (48 places)' % (_d, _acc, EKINDS[_kind]))
-    _reg(make_readonly(_d, 1), {'C04': Q}, 1800, 'readonly', 'document %r: both attribution modes x every tree model x 12 non-editing operation kinds (lenient/strict claims)' % _d, cost=300)
+    _reg(make_readonly(_d, 1), {'C04': Q}, 1800, 'readonly', 'document %r: both attribution modes x every tree model x 13 non-editing operation kinds (incl. arithmetic on number expressions) (lenient/strict claims)' % _d, cost=300)
     _reg(make_readonly(_d, 2), {'C04': T}, 3300, 'readonly', 'document %r: sequences of 2 non-editing operations on 2 models' % _d)
 _reg(make_copy('txn', 1, 0, 11, twin=True), {'C11': Q}, 120, 'copy', 'vacuity twin', twin=True, cost=1)
 _reg(make_equal('txn', 1, 0, 11, twin=True), {'C20': Q}, 120, 'equal', 'vacuity twin', twin=True, cost=1)
